@@ -41,7 +41,7 @@ def events_goals(g, a, b, q, op):
 
 
 def inv_assume(ctx, g, view, nodes, pairs, shape_pairs=None):
-    ctx.assume(spec.shape_h(g, nodes, list(pairs) + list(shape_pairs or [])), 'shape')
+    ctx.assume(spec.shape_h(g, nodes, list(pairs) + list(shape_pairs or []), quantified=not getattr(ctx, 'bounded', False)), 'shape')
     ctx.assume(spec.tte_h(g), 'tte')
     for (a, b) in pairs:
         ctx.assume(spec.snapkeys_h(g, a, b), 'snapkeys')
